@@ -114,7 +114,7 @@ fn main() {
         let _ = std::fs::write(&ev_path, serde_json::to_string_pretty(&ev).unwrap());
         std::process::exit(1);
     });
-    let ctx = run::Ctx { prop: prop.clone(), tier, seed, repo, verif, threads, g: vref::altitude::Gillham::new(), wd, start: std::time::Instant::now(), args: args.clone(), lite: std::sync::atomic::AtomicBool::new(false) };
+    let ctx = run::Ctx { prop: prop.clone(), tier, seed, repo, verif, threads, g: vref::altitude::Gillham::new(), wd, start: std::time::Instant::now(), args: args.clone(), lite: std::sync::atomic::AtomicBool::new(false), salt: std::sync::atomic::AtomicU64::new(0) };
     let _ = std::fs::remove_dir_all(&replay_dir);
     if prop == "GEN-C20" {
         let out = get("--out").expect("--out");
